@@ -332,7 +332,7 @@ func VerifC20ByteArray(window int) {
 	l.index = idx
 	v := make([]byte, 4096)[:n]
 	l.ByteArray("arr", v)
-	verifAssert(l.index <= bufSize-1 && l.index > idx, "ByteArray:cursor")
+	verifAssert(l.index <= bufSize-1 && l.index >= idx, "ByteArray:cursor")
 	verifReach("done")
 }
 
